@@ -696,16 +696,10 @@ pub fn judge_faulted(
                     Err(_) => None,
                 },
                 (_, Some((wk, _at)), Some(r)) => {
-                    if run.writes_after_fatal > 0 {
-                        return Some(viol("continued-after-write-error", format!(
-                            "{} further write calls after the writer/closure failed with {:?}",
-                            run.writes_after_fatal, wk)));
-                    }
-                    if run.reads_after_fatal > 0 {
-                        return Some(viol("continued-after-write-error", format!(
-                            "{} further read calls after the writer/closure failed with {:?}",
-                            run.reads_after_fatal, wk)));
-                    }
+                    // Further seam calls after the failure are not judged by
+                    // themselves (the property does not forbid them): what is
+                    // demanded is prefix consistency (above) and that the
+                    // error comes back with its kind.
                     match r {
                         Ok(()) => Some(viol("error-not-surfaced", format!(
                             "writer/closure failed with {:?} but replacement returned Ok", wk))),
